@@ -4,6 +4,8 @@ import (
 	"fmt"
 	"go/token"
 	"go/types"
+	"os"
+	"runtime/debug"
 	"sync"
 
 	"symgo/smt"
@@ -360,7 +362,14 @@ func (r *Run) callValue(fv Value, args []Value, caller *frame) Value {
 	case Poison:
 		panic(unsupported("call of unmodelled function value: " + f.Why))
 	}
-	panic(unsupported(fmt.Sprintf("call of %T", fv)))
+	where := ""
+	if caller != nil {
+		where = " in " + caller.fn.String()
+	}
+	if os.Getenv("SYMGO_DEBUG") != "" {
+		debug.PrintStack()
+	}
+	panic(unsupported(fmt.Sprintf("call of %T%s", fv, where)))
 }
 
 type cont int
